@@ -362,6 +362,10 @@ def kf_c06_1(first, trailing):
 
 
 def replay(case):
+    if "carriers" in case:
+        from vlib import carriers
+
+        return carriers.replay(case, "c06")
     if case.get("optimized"):
         bad = _optimized_child([bytes.fromhex(case["hex"])])
         return Failure(case, f"under python -O: {bad[0][1][:300]}") if bad else None
@@ -461,6 +465,7 @@ def shards(tier):
     runs = 30000 if tier == "quick" else 1500000
     out += [{"kind": "atheris", "runs": runs, "idx": i} for i in range(1 if tier == "quick" else 6)]
     out += [{"kind": "optimized", "n": 150 if tier == "quick" else 3000}]
+    out += [{"kind": "carriers"}]
     return out
 
 
@@ -506,6 +511,10 @@ def run_shard(spec, seed):
     from hypothesis import strategies as st
 
     res = ShardResult()
+    if spec["kind"] == "carriers":
+        from vlib import carriers
+
+        return carriers.run_shard(res, "c06")
     if spec["kind"] == "optimized":
         from vlib import values
 
